@@ -128,6 +128,10 @@ fn check_pairs(ps: Pairs<Rule>, f: &[T], input: &str, depth: usize) -> Result<()
             (g, w) => return Err(format!("find_first_tagged({:?}) is_some = {}, the tree has {} tagged pairs", tg, g.is_some(), if w.is_some() { "some" } else { "no" })),
         }
     }
+    // concat: the texts of the top-level pairs, in order
+    let want_cat: String = f.iter().map(|t| &input[t.start..t.end]).collect();
+    if ps.concat() != want_cat { return Err(format!("concat {:?} != {:?}", ps.concat(), want_cat)); }
+    if ps.get_input() != input { return Err("Pairs::get_input".into()); }
     // text views: Display, alternate Display, Debug and JSON, against renderings computed from the tree
     let want_disp = format!("[{}]", f.iter().map(|t| input[t.start..t.end].to_string()).collect::<Vec<_>>().join(", "));
     if format!("{}", ps) != want_disp { return Err(format!("Display {:?} != {:?}", format!("{}", ps), want_disp)); }
@@ -182,7 +186,7 @@ fn main() {
         if let Err(e) = run(input, &g) { println!("WITNESS {{\"tree\":\"{}\",\"input\":\"x\\u00e9z\",\"what\":\"{}\"}}", show(&g), e.replace('"', "'")); return; }
     } }
     if KNOWN_F6.with(|c| c.get()) { println!("KNOWN-WITNESS F6 {{\"tree\":\"\",\"what\":\"Pairs::to_json panics on an empty top-level Pairs (serialize indexes queue[start] and queue[end - 1])\"}}"); }
-    println!("NO-WITNESS all forests with <= 3 nodes over the 4 boundaries of a 3-character input, with every assignment of node tags from {{none, t, u}}, agree in every view (walks, len, peek, tokens, flatten in every schedule, single, into_inner, node tags, Display, alternate Display, Debug, JSON)");
+    println!("NO-WITNESS all forests with <= 3 nodes over the 4 boundaries of a 3-character input, with every assignment of node tags from {{none, t, u}}, agree in every view (walks, len, peek, tokens, flatten in every schedule, single, into_inner, node tags, concat, Display, alternate Display, Debug, JSON)");
 }
 // positions 0..3 index boundaries
 fn remap(f: &[T], b: &[usize]) -> Vec<T> { f.iter().map(|t| T { rule: t.rule, start: b[t.start], end: b[t.end], kids: remap(&t.kids, b), tag: t.tag }).collect() }
